@@ -19,10 +19,10 @@ TF = "src/builtins/type_functions.rs"
 SP = "src/eval/scope.rs"
 
 # C06
-m("mul_wrapping", ["C06", "C02"], EV, "a.checked_mul(*b)", "Some(a.wrapping_mul(*b))")
+m("mul_wrapping", ["C06"], EV, "a.checked_mul(*b)", "Some(a.wrapping_mul(*b))")
 m("rem_euclid", ["C06"], EV, "Ok(Value::Int(a.wrapping_rem(*b)))", "Ok(Value::Int(a.wrapping_rem_euclid(*b)))")
 m("range_inclusive", ["C06", "C01"], EV, "(start..end)\n                    .map(value::new_int)", "(start..=end)\n                    .map(value::new_int)")
-m("sub_unchecked", ["C06", "C02"], EV, "if let Some(v) = a.checked_sub(*b) {", "if let Some(v) = Some(a.wrapping_sub(*b)) {")
+m("sub_unchecked", ["C06"], EV, "if let Some(v) = a.checked_sub(*b) {", "if let Some(v) = Some(a.wrapping_sub(*b)) {")
 m("lte_is_lt", ["C06"], EV, "BinaryOp::Lte => a <= b,", "BinaryOp::Lte => a < b,")
 # C08
 m("mod_to_sum_tier", ["C08"], PA, '    "*" => BinaryOp::Mul,\n    "/" => BinaryOp::Div,\n    "%" => BinaryOp::Mod,\n', '    "*" => BinaryOp::Mul,\n    "/" => BinaryOp::Div,\n')
